@@ -359,18 +359,49 @@ def run(ctx):
         for x in walk(q.ev.call_expr(q.calls("from")[0].b) if q.calls("from") else ("unk",)):
             pass
         fr = [c for c in q.calls("from") if c.args and c.args[0][0] == "agg" and c.args[0][1] == "array"]
-        if len(fr) != 1:
+        inserts = [c for c in q.calls("insert") if len(c.args) == 3 and "HashMap" in (c.resolved or "")]
+
+        def plain_key(k):
+            for y in walk(k):
+                if y[0] == "const" and isinstance(y[2], str) and y[2].startswith('"'):
+                    return y[2].strip('"')
+            return None
+        templ = {}
+        ins_sites = []
+        if len(fr) != 1 and inserts:
+            # second spelling: `let mut d = HashMap::new() / with_capacity(..); d.insert(key, series); ..` with the per-level
+            # families inserted inside ONE loop over all levels (read through the loop's symbolic item)
+            from analysis.iterelem import loop_item, rewrite, I as POS
+            loops = {}
+            for c in inserts:
+                hs = q.cfg.loops_containing(c.b)
+                if not hs:
+                    pairs[plain_key(c.args[1])] = c.args[2]
+                    ins_sites.append(c)
+                    continue
+                h = sorted(hs, key=lambda h_: len(q.body.loop_body(h_)))[0]
+                loops.setdefault(h, []).append(c)
+            for h, cs in loops.items():
+                nxt = [c for c in q.calls("next") if c.b in q.body.loop_body(h) and q.cfg.loops_containing(c.b) and sorted(q.cfg.loops_containing(c.b), key=lambda h_: len(q.body.loop_body(h_)))[0] == h]
+                sym, bounds = loop_item(q, nxt[0]) if len(nxt) == 1 else (None, [])
+                full = sym is not None and not [b_ for b_ in bounds if b_[0] == "take"] and any(
+                    b_[0] == "range" and "N_LEVELS" in render(b_[2]) or b_[0] == "coll" for b_ in bounds)
+                for c in cs:
+                    if not full:
+                        templ["?%s" % render(c.args[1])[:40]] = (("unk",), None)
+                        continue
+                    k = rewrite(c.args[1], nxt[0], sym)
+                    v = rewrite(c.args[2], nxt[0], sym)
+                    templ[format_key(k, index_var=POS)] = (v, None)
+                    ins_sites.append(c)
+        elif len(fr) != 1:
             ctx.lost("dict", "%s.get_market_data: HashMap::from([...]) not found" % cls)
             continue
-        for tup in fr[0].args[0][3]:
-            if tup[0] == "agg" and tup[1] == "tuple" and len(tup[3]) == 2:
-                k, v = tup[3]
-                key = None
-                for y in walk(k):
-                    if y[0] == "const" and isinstance(y[2], str) and y[2].startswith('"'):
-                        key = y[2].strip('"')
-                pairs[key] = v
-        templ = {}
+        else:
+            for tup in fr[0].args[0][3]:
+                if tup[0] == "agg" and tup[1] == "tuple" and len(tup[3]) == 2:
+                    k, v = tup[3]
+                    pairs[plain_key(k)] = v
         # per-level families: every `extend(dict, from_fn(..))`, read through the element expression at index i (closures
         # beta-reduced, a shared column-building helper inlined, constant prefixes substituted into the key template)
         from analysis.beta import from_fn_element
@@ -412,14 +443,18 @@ def run(ctx):
         # family extension, each unconditional (an early `return HashMap::new()` hands out a dictionary without the documented keys)
         live_ = q.cfg.reach_from(0)
         rets_ = [rb for rb in q.body.return_blocks() if rb in live_]
-        sites_ = [fr[0]] + exts
-        complete = len(rets_) == 1 and all(q.body.dominates(c_.b, rets_[0]) for c_ in sites_) and not any(
+        sites_ = ([fr[0]] if len(fr) == 1 else []) + exts + ins_sites
+        def dom_block(c_):
+            # an insertion inside the (complete) level loop is reached on every path iff the loop is: judge the loop head
+            hs_ = q.cfg.loops_containing(c_.b)
+            return sorted(hs_, key=lambda h_: len(q.body.loop_body(h_)))[-1] if hs_ else c_.b
+        complete = len(rets_) == 1 and all(q.body.dominates(dom_block(c_), rets_[0]) for c_ in sites_) and not any(
             [a for a in c_.guards if not (a[0] == "variant" and a[1][0] == "call" and a[1][4] == "next")] for c_ in sites_)
         if not complete:
             disagreements += 1
         ctx.check(complete, "dict", cls + "|every-path", ctx.loc(f), "every path returns the dictionary built from the literal and all family extensions (no early or conditional return)",
                   "%s.get_market_data can return without the documented entries: %d return sites; a key insertion is conditional or bypassed" % (cls, len(rets_)))
-        n_ext = len(exts)
+        n_ext = len(exts) if len(fr) == 1 else len([c for c in ins_sites if q.cfg.in_loop(c.b)])
         ctx.check(n_ext == len(templ) == 4, "dict", cls + "|extends", ctx.loc(f), "all %d per-level families are added to the dictionary" % n_ext, "%d families built, %d added" % (len(templ), n_ext))
         samples.append({"dict": cls, "keys": sorted(k for k in pairs if k), "templates": sorted(k for k in templ if k)})
 
